@@ -122,6 +122,8 @@ def main():
                 cases.append(Case(cmd, toks[1] if len(toks) > 1 else "", origin="replay", meta=tuple(m) if m else None))
         else:
             cases = core.load_corpus(prop) + list(mod.gen(ctx))
+            if tables_broken and prop in ("C03", "C10", "C13", "C14", "C20"):
+                cases = core.table_search_cases(prop) + cases
         seen = set()
         uniq = []
         for c in cases:
